@@ -231,12 +231,13 @@ func run(s *kernel.Sim, c *scen.Case) {
 		return
 	}
 	// both directions resume with no fresh handshake and carry traffic
+	wantSid := sid
 	check := func(r *xres, dir string, when string) bool {
 		if r.cerr != nil || r.serr != nil {
 			s.Violate("claim-session-did-not-resume", dir+"/"+when, fmt.Sprintf("%s %s (%s): dialer %v, listener %v", desc, dir, when, r.cerr, r.serr))
 			return false
 		}
-		if !r.cn.SessionResumed || !r.sn.SessionResumed || r.sn.SessionId != sid {
+		if !r.cn.SessionResumed || !r.sn.SessionResumed || r.sn.SessionId != wantSid {
 			s.Violate("claim-session-did-not-resume", dir+"/not-resumed", fmt.Sprintf("%s %s: a fresh handshake ran instead", desc, dir))
 			return false
 		}
@@ -267,7 +268,6 @@ func run(s *kernel.Sim, c *scen.Case) {
 		return
 	}
 	s.Probe("both-directions-resume")
-	// an importer holding a different secret cannot
 	pos := len(claim) - 1 - t.Choose("secretpos", len(secret))
 	bad := []byte(claim)
 	if bad[pos] == '0' {
@@ -275,6 +275,47 @@ func run(s *kernel.Sim, c *scen.Case) {
 	} else {
 		bad[pos] = '0'
 	}
+	// the file-transfer session derived from the same claim id: both holders of the claim id
+	// register it symmetrically and it resumes between them; a holder of a different secret cannot
+	if t.Chance("file-transfer-session", 1, 2) {
+		ftB, errB := security.ImportFileTransferSession(B.cache, claim, security.ClaimSessionOptions{PeerAddr: "<" + A.addr + ">"})
+		ftA, errA := security.ImportFileTransferSession(A.cache, claim, security.ClaimSessionOptions{PeerAddr: "<" + B.addr + ">"})
+		if errA != nil || errB != nil {
+			s.Violate("import-failed", "file-transfer", fmt.Sprintf("%s: %v / %v", desc, errA, errB))
+			return
+		}
+		fa, okA := A.cache.Lookup(ftA)
+		fb, okB := B.cache.Lookup(ftB)
+		if ftA != ftB || ftA == sid || !strings.HasSuffix(ftA, sid) || !okA || !okB {
+			s.Violate("session-id-differs", "file-transfer", fmt.Sprintf("%s: file-transfer session ids %q / %q (claim session %q), registered %v/%v", desc, ftA, ftB, sid, okA, okB))
+			return
+		}
+		if fa.KeyInfo() == nil || fb.KeyInfo() == nil || !bytes.Equal(fa.KeyInfo().Data, fb.KeyInfo().Data) || len(fa.KeyInfo().Data) != 32 {
+			s.Violate("derived-key-differs", "file-transfer", desc)
+			return
+		}
+		for _, attr := range []string{"Encryption", "Integrity"} {
+			if v, _ := fb.Policy().EvaluateAttrString(attr); v != "YES" {
+				s.Violate("policy-differs", "file-transfer/"+attr, fmt.Sprintf("%s: the file-transfer session has %s=%q", desc, attr, v))
+				return
+			}
+		}
+		wantSid = ftA
+		okft := check(w.dial(B, A, ftA, 443), "file-transfer importer->importer", "fresh") && check(w.dial(A, B, ftA, 444), "file-transfer importer<-importer", "fresh")
+		wantSid = sid
+		if !okft {
+			return
+		}
+		if _, err := security.ImportFileTransferSession(C.cache, string(bad), security.ClaimSessionOptions{PeerAddr: "<" + A.addr + ">"}); err == nil {
+			r := w.dial(C, A, ftA, 443)
+			if r.serr == nil && r.sxerr == nil && r.sGot != nil {
+				s.Violate("wrong-secret-accepted", "file-transfer/accepted-data", fmt.Sprintf("%s: secret character %d changed, yet the file-transfer session accepted application data", desc, pos))
+				return
+			}
+		}
+		s.Probe("file-transfer-session-resumes")
+	}
+	// an importer holding a different secret cannot
 	if _, err := security.ImportClaimSession(C.cache, string(bad), security.ClaimSessionOptions{PeerAddr: "<" + A.addr + ">"}); err == nil {
 		r := w.dial(C, A, sid, 443)
 		if r.serr == nil && r.sxerr == nil && r.sGot != nil {
